@@ -144,7 +144,10 @@ fn run(c: &mut Ctx) {
     let n_bases = c.tier.pick(6usize, 40usize); // per worker
     let ctx_strat = (base_frame(), gen::opts_ur(), proptest::collection::vec(any::<u32>(), 64), proptest::collection::vec((6u32..112, any::<u128>(), 3u32..=20), 400));
     let draws = c.draw(n_bases, ctx_strat);
-    for (base, opts, inner, randoms) in draws {
+    for (di, (base, mut opts, inner, randoms)) in draws.into_iter().enumerate() {
+        if di % 3 == 2 {
+            opts.d = 0; // every sweep empties the table: a rejected frame that advanced the sweep counter would show
+        }
         // prefix history containing the aircraft itself and one other
         let addr = base.address();
         let pre = c.draw(1, proptest::collection::vec((prop_oneof![Just(addr), Just(0x4840D6u32)]).prop_flat_map(|a| alphabet::frame_any(a)), 0..12));
@@ -188,6 +191,43 @@ fn run(c: &mut Ctx) {
         if c.want_sample() {
             c.sample(json!({"intact": base.hex(), "opts": opts.label(), "prefix_len": prefix.len(), "corrupted_examples": reject.iter().step_by(reject.len() / 3 + 1).map(|f| f.hex()).collect::<Vec<_>>(), "rejected_by_reference": reject.len()}));
         }
+        // adjacency: the intact frame immediately before each corrupted one (a shortcut that recognises 'the frame just
+        // accepted' must still look at every bit); compared with feeding the intact frame alone, wall-clock excluded
+        if opts.d > 0 {
+            let sample: Vec<Frame> = reject.iter().step_by((reject.len() / 400).max(1)).cloned().collect();
+            let mut lines = vec![base.hex()];
+            for f in &sample {
+                lines.push(base.hex());
+                lines.push(f.hex());
+            }
+            let t1 = run::new_table();
+            let t2 = run::new_table();
+            let r1 = run::run_lines(&opts, &t1, &[base.hex(), base.hex()]);
+            let r2 = run::run_lines(&opts, &t2, &lines);
+            c.eval(sample.len() as u64);
+            c.class_n("intact_then_corrupted_pairs", sample.len() as u64);
+            if r1.is_err() || r2.is_err() || run::no_clock(&run::snapshot(&t1)) != run::no_clock(&run::snapshot(&t2)) {
+                // find the culprit
+                let mut culprit = None;
+                for f in &sample {
+                    let ta = run::new_table();
+                    let _ = run::run_lines(&opts, &ta, &[base.hex(), base.hex(), f.hex()]);
+                    if run::no_clock(&run::snapshot(&ta)) != run::no_clock(&run::snapshot(&t1)) {
+                        culprit = Some(*f);
+                        break;
+                    }
+                }
+                if let Some(f) = culprit {
+                    let mask = f.bits ^ base.bits;
+                    c.fail(
+                        format!("DF{} frame {} fails the parity check (remainder {:06X}) but changed the table when it arrived directly after its intact original {}", f.df(), f.hex(), f.syndrome(), base.hex()),
+                        "c04:applied",
+                        json!({"kind":"adjacent","opts":opts,"base":base,"mask":format!("{:X}", mask)}),
+                    );
+                    return;
+                }
+            }
+        }
         for chunk in reject.chunks(2048) {
             if let Err(_d) = unchanged_after(&opts, &prefix, chunk) {
                 let (culprit, msg) = bisect(&opts, &prefix, chunk);
@@ -229,6 +269,19 @@ fn replay(c: &mut Ctx, case: &Value) {
         Some("control") => {
             if let Err(m) = positive_control(&opts, &base) {
                 c.fail(m, "c04:control", case.clone());
+            }
+        }
+        Some("adjacent") => {
+            let mask = u128::from_str_radix(case["mask"].as_str().unwrap_or("0"), 16).unwrap_or(0);
+            let f = apply_mask(&base, mask);
+            if !parity_ok(&f) {
+                let t1 = run::new_table();
+                let t2 = run::new_table();
+                let _ = run::run_lines(&opts, &t1, &[base.hex(), base.hex()]);
+                let r2 = run::run_lines(&opts, &t2, &[base.hex(), base.hex(), f.hex()]);
+                if r2.is_err() || run::no_clock(&run::snapshot(&t1)) != run::no_clock(&run::snapshot(&t2)) {
+                    c.fail(format!("DF{} frame {} fails the parity check but changed the table when it arrived directly after its intact original {}", f.df(), f.hex(), base.hex()), "c04:applied", case.clone());
+                }
             }
         }
         _ => {
